@@ -124,11 +124,25 @@ def scenario(draw):
         longest = max(longest, start + ms)
         payloads.append({"id": 300 + i, "flavour": "threading", "role": "blocker", "kind": kind, "reg": {"how": "pre"},
                          "program": [["sleep", start], ["mark-begin"], [kind, ms], ["mark-end"]], "end": ["return", "None"]})
+    if draw(st.integers(0, 3)) == 0:
+        # a blocking thread service whose class refines a service class declared for a coroutine flavour
+        ms = draw(st.sampled_from([200, 300]))
+        longest = max(longest, 10 + ms)
+        payloads.append({"id": 330, "flavour": "threading", "role": "blocker", "kind": "block", "reg": {"how": "pre-service"}, "refines": draw(st.sampled_from(COROUTINE)),
+                         "program": [["sleep", 10], ["mark-begin"], ["block", ms], ["mark-end"]], "end": ["return", "None"]})
     # after the last blocking interval the scenario idles for 200 ms: the heartbeat rate in that window is the
     # control against which the rate during blocking intervals is judged (machine load affects both alike)
     total = max(longest + 60, 250) + 200
     drivers.append([{"at_ms": total - 190, "op": "mark", "name": "control-begin"}, {"at_ms": total - 10, "op": "mark", "name": "control-end"},
                     {"at_ms": total, "op": "shutdown"}])
+    if draw(st.integers(0, 3)) == 0:
+        # coroutine payloads parked on an awaitable that only their own task refers to, while other threads run the garbage
+        # collector: their clean-up must still run on their own thread, when the runtime cancels them
+        for i, flv in enumerate(draw(st.lists(st.sampled_from(COROUTINE), min_size=1, max_size=3))):
+            payloads.append({"id": 520 + i, "flavour": flv, "role": "worker", "how": draw(st.sampled_from(["pre", "pre-service"])), "program": [["section", 200], ["park"]],
+                             "end": ["forever"], "cleanup": {}})
+            payloads[-1]["reg"] = {"how": payloads[-1]["how"]}
+        drivers.append([{"at_ms": t, "op": "gc"} for t in sorted(draw(st.lists(st.sampled_from([20, 50, 90, 150, 220]), min_size=1, max_size=3, unique=True)))])
     if not late and draw(st.integers(0, 2)) == 0:
         # thread payloads that are still blocked when the runtime is shut down, and an executed asyncio payload whose life spans
         # the shutdown: its beats must not pause while the runtime deals with the blocked threads
